@@ -43,14 +43,15 @@ func ProvideCalculateVoteResultsAndVotingPowerFn(authKeeper AccountKeeper, staki
 		// <sunrise>
 		// Deduct shareclass module's delegations
 		shareclassAddr := authKeeper.GetModuleAddress(shareclasstypes.ModuleName)
-		shareclassVP := math.LegacyZeroDec()
+		// tokens behind the shareclass module's shares on the bonded validators
+		shareclassBonded := math.LegacyZeroDec()
 		err = stakingKeeper.IterateDelegations(ctx, shareclassAddr, func(index int64, delegation sdk.DelegationI) (stop bool) {
 			valAddrStr := delegation.GetValidatorAddr()
 			if val, ok := validators[valAddrStr]; ok {
 				val.DelegatorDeductions = val.DelegatorDeductions.Add(delegation.GetShares())
 				validators[valAddrStr] = val
 
-				shareclassVP = shareclassVP.Add(delegation.GetShares())
+				shareclassBonded = shareclassBonded.Add(delegation.GetShares().MulInt(val.BondedTokens).Quo(val.DelegatorShares))
 			}
 			return false
 		})
@@ -148,21 +149,15 @@ func ProvideCalculateVoteResultsAndVotingPowerFn(authKeeper AccountKeeper, staki
 		// <sunrise>
 		// To cancel the effect to quorum, we need to adjust the total voting power.
 		// It should not be totalVoterPower / totalBonded < quorum.
-		// totalVoterPowerCustom / totalBonded = (totalVoterPower - shareclassVotingPower) / (totalBonded - shareclassBonded)
-		shareclassBonded, err := stakingKeeper.GetDelegatorBonded(ctx, shareclassAddr)
-		if err != nil {
-			return math.LegacyDec{}, nil, err
-		}
+		// totalVoterPowerCustom / totalBonded = totalVoterPower / (totalBonded - shareclassBonded)
+		// (totalVoterPower already excludes the shareclass module's delegations)
 		totalBonded, err := stakingKeeper.TotalBondedTokens(ctx)
 		if err != nil {
 			return math.LegacyDec{}, nil, err
 		}
-		if !totalBonded.IsZero() {
-			numerator := totalVP.Sub(shareclassVP)
-			denominator := totalBonded.Sub(shareclassBonded)
-
-			numerator = numerator.MulInt(totalBonded)
-			totalVP = numerator.Quo(math.LegacyNewDecFromInt(denominator))
+		votingBonded := math.LegacyNewDecFromInt(totalBonded).Sub(shareclassBonded)
+		if votingBonded.IsPositive() {
+			totalVP = totalVP.MulInt(totalBonded).Quo(votingBonded)
 		}
 		// <sunrise />
 
